@@ -27,7 +27,7 @@ NSHARDS = 16
 
 def plan(tier, seed):
     return [{"shard": i, "nshards": NSHARDS, "nmax": 5 if tier == "quick" else 6,
-             "n_random": 300 if tier == "quick" else 6000} for i in range(NSHARDS)]
+             "n_random": 300 if tier == "quick" else 6000, "n_large": 32 if tier == "quick" else 400} for i in range(NSHARDS)]
 
 
 def cases(desc):
@@ -92,6 +92,52 @@ def compare(which, spec):
     return None
 
 
+def structural(spec):
+    """SPLOT only: the declared tree equals the model's tree (any size)."""
+    try:
+        text = export("splot", spec)
+        got, clauses = sxfm.structure(text)
+    except sxfm.SxfmError as e:
+        return ("export-parseable", "unparseable", str(e)[:200])
+    except Exception as e:  # noqa: BLE001
+        return ("no-exception", f"raises:{type(e).__name__}", f"{type(e).__name__}: {e}")
+    if S.canon_tree(got["root"], ()) != S.canon_tree(spec["root"], ()):
+        ne, no = sorted(S.feature_names(spec)), sorted(S.feature_names(got))
+        return ("same-tree", "feature-missing" if ne != no else "tree-differs",
+                f"declared tree differs: {[n for n in ne if n not in no][:5]} missing; "
+                f"{S.first_diff(S.canon_tree(spec['root'], ()), S.canon_tree(got['root'], ()))}")
+    return None
+
+
+def run_large(acc, spec, source):
+    cls = f"splot:{source}"
+    key = S.digest(["splot-structure", spec])
+    acc.programs += 1
+    v = structural(spec)
+    acc.disagreements_checked += 1
+    if v:
+        acc.fail(cls, v[0], "splot", [], v[1], v[2], {"which": "splot", "source": source,
+                                                     "spec": spec if len(S.feature_names(spec)) <= 60 else None}, key)
+    else:
+        acc.held(cls, key)
+    # the propositional export of a large constraint-free tree is judged through its model count on
+    # sampled partial assignments is out of reach; its formulas are at least parseable and mention every feature
+    names = S.feature_names(spec)
+    cls = f"exp:{source}"
+    acc.programs += 1
+    try:
+        text = export("exp", spec)
+        missing = [n for n in names if n not in exp.mentioned(text, names)]
+        if missing:
+            acc.fail(cls, "no-feature-missing", "exp", [], "feature-missing", f"{missing[:5]}", {"which": "exp", "source": source}, key)
+        else:
+            acc.held(cls, S.digest(["exp-parse", spec]))
+    except exp.ExpError as e:
+        acc.fail(cls, "export-parseable", "exp", [], "unparseable", str(e)[:200], {"which": "exp", "source": source}, key)
+    except Exception as e:  # noqa: BLE001
+        acc.fail(cls, "no-exception", "exp", [], f"raises:{type(e).__name__}", str(e)[:200], {"which": "exp", "source": source}, key)
+
+
 def run_case(acc, source, spec):
     rel_tags = semops.model_tags(spec)
     ops = set()
@@ -122,6 +168,24 @@ def run_case(acc, source, spec):
 def run_shard(desc, acc):
     for source, spec in cases(desc):
         run_case(acc, source, spec)
+        v = structural(spec)
+        if v:
+            acc.fail("splot:structure", v[0], "splot", [], v[1], v[2], {"which": "splot", "source": source, "spec": spec})
+    i, n, seed = desc["shard"], desc["nshards"], desc["seed"]
+    for j in range(desc.get("n_large", 0)):
+        if j % n == i:
+            r = rand.rng(seed, "c10large", j)
+            spec = rand.rand_model(r, r.randint(60, 200), n_ctcs=0, profile=r.choice(["mixed", "deep", "wide"]),
+                                   group_kinds=("alternative", "or", "mutex", "cardinality"))
+            run_large(acc, spec, "large-random")
+    for wi, k in enumerate((9, 10, 11, 12, 13)):
+        if wi % n == i:
+            r = rand.rng(seed, "c10wide", k)
+            for mn, mx in ((1, 1), (1, k), (0, 1), (2, k - 1), (k, k), (0, k), (3, 3)):
+                kids = [{"name": f"G{j}", "rels": []} for j in range(k)]
+                spec = {"root": {"name": "W", "rels": [{"min": mn, "max": mx, "children": kids}]},
+                        "ctcs": [{"name": "c", "ast": ["IMPLIES", "G0", ["OR", "G1", "G2"]]}] if r.random() < 0.5 else []}
+                run_case(acc, "wide-group", spec)
 
 
 def replay(payload, acc):
